@@ -28,3 +28,7 @@ MUTANTS.append(dict(name="copy-skips-existing-destination", file="emitters/core_
 MUTANTS.append(dict(name="relative-core-path-into-absolute-import", file="visit/endpoint/generators/response_handler_generator.py", expect="R12.4",
     old='context.add_import(f"{context.core_package_name}.cattrs_converter", "structure_from_dict")',
     new='context.add_import(context.get_core_import_path("cattrs_converter"), "structure_from_dict")', count=2))
+MUTANTS.append(dict(name="postprocess-receives-runtime-copies", file='generator/client_generator.py', expect="R12.6",
+    old="[str(p) for p in self._without_runtime_copies(generated_files, core_dir)]", new="[str(p) for p in generated_files]"))
+MUTANTS.append(dict(name="runtime-copy-filter-inverted-source", file='generator/client_generator.py', expect="R12.6",
+    old="for _, _, rel_dst in RUNTIME_FILES}", new="for _, _, rel_dst in []}"))
